@@ -77,6 +77,8 @@ structure St (κ β : Type) where
   count : Nat := 0                     -- RefCountDisposable.count
   rcdDisposed : Bool := false          -- RefCountDisposable.is_disposed (= group_disposable disposed)
   out : List (Eff κ β) := []
+  srcDone : Bool := false              -- ghost: the source's terminal reached the operator (while it was subscribed)
+  failed : Bool := false               -- ghost: an error-all ran (raising mapper, failing duration, source error)
 deriving Repr
 
 /-- User callbacks and the environment's fixed choices. -/
@@ -92,6 +94,9 @@ structure Cfg (α κ β : Type) where
   observer sits in the writer's observer list (after the subscriber attached inside the outer on_next, before
   later subscribers) and fires on the (n+1)-th element the writer delivers -/
   dgrp : Nat → Option Nat := fun _ => none
+  /-- re-entrancy: the elements the outer subscriber pushes into the source (a Subject) synchronously from inside its
+  `on_next(group #g)`, after subscribing to the group; groups created by those nested elements trigger no further feedback -/
+  nest : Nat → List α := fun _ => []
 
 variable {α κ β : Type}
 
@@ -181,7 +186,7 @@ def outerTerm (s : St κ β) (n : Notif (Nat × κ)) : St κ β :=
   else rcdDispose (emit { s with outStopped := true } (.outer n))
 
 def errorAll (s : St κ β) (e : Err) : St κ β :=
-  outerTerm (termAll s (.error e)) (.error e)
+  outerTerm (termAll { s with failed := true } (.error e)) (.error e)
 
 /-- `group.subscribe(observer)` for an announced group that has no subscriber yet:
 `CompositeDisposable(merged_disposable.disposable, writer.subscribe(observer))`. -/
@@ -272,10 +277,10 @@ def srcNext (cfg : Cfg α κ β) (s : St κ β) (x : α) : St κ β :=
 
 def step (cfg : Cfg α κ β) (s : St κ β) : Ev α → St κ β
   | .src (.next x) => if s.srcStopped then s else srcNext cfg s x
-  | .src (.error e) => if s.srcStopped then s else closeSrc (errorAll { s with srcStopped := true } e)
+  | .src (.error e) => if s.srcStopped then s else closeSrc (errorAll { s with srcStopped := true, srcDone := true } e)
   | .src .completed =>
     if s.srcStopped then s
-    else closeSrc (outerTerm (termAll { s with srcStopped := true } .completed) .completed)
+    else closeSrc (outerTerm (termAll { s with srcStopped := true, srcDone := true } .completed) .completed)
   | .dur g n => durEvent cfg s g n
   | .disposeOuter => rcdDispose { s with outStopped := true }
   | .subGroup g => subscribeLate s g
@@ -348,7 +353,8 @@ def errorAllD (cfg : Cfg α κ β) : Nat → St κ β → Err → St κ β
   | fuel + 1, s, e =>
     outerTerm ((s.writers.map (·.2)).foldl (fun s g => writerTermWith cfg (errorAllD cfg fuel) s g (.error e)) s) (.error e)
 
-def errAllD (cfg : Cfg α κ β) (s : St κ β) (e : Err) : St κ β := errorAllD cfg (s.writers.length + 1) s e
+def errAllD (cfg : Cfg α κ β) (s : St κ β) (e : Err) : St κ β :=
+  errorAllD cfg (s.writers.length + 1) { s with failed := true } e
 
 /-- `for wrt in list(writers.values()): wrt.on_completed()` -/
 def completeAllD (cfg : Cfg α κ β) (s : St κ β) : St κ β :=
@@ -403,10 +409,10 @@ def srcNextD (cfg : Cfg α κ β) (s : St κ β) (x : α) : St κ β :=
 
 def stepD (cfg : Cfg α κ β) (s : St κ β) : Ev α → St κ β
   | .src (.next x) => if s.srcStopped then s else srcNextD cfg s x
-  | .src (.error e) => if s.srcStopped then s else closeSrc (errAllD cfg { s with srcStopped := true } e)
+  | .src (.error e) => if s.srcStopped then s else closeSrc (errAllD cfg { s with srcStopped := true, srcDone := true } e)
   | .src .completed =>
     if s.srcStopped then s
-    else closeSrc (outerTerm (completeAllD cfg { s with srcStopped := true }) .completed)
+    else closeSrc (outerTerm (completeAllD cfg { s with srcStopped := true, srcDone := true }) .completed)
   | .dur g n => durEventD cfg s g n
   | .disposeOuter => rcdDispose { s with outStopped := true }
   | .subGroup g => subscribeLate s g
@@ -419,6 +425,54 @@ def runD (cfg : Cfg α κ β) (s : St κ β) : List (Ev α) → St κ β
   | [] => s
   | e :: es => runD cfg (stepD cfg s e) es
 
+
+/-! ### re-entrant elements: the outer subscriber feeds the source from inside `on_next(group)`
+
+`writers[key] = writer` is executed BEFORE `observer.on_next(group)`: a nested element of the same key finds the writer and is
+delivered to the (already subscribed) group before the element that created it; the duration is subscribed only after the
+outer `on_next` returned.  `stepN` = `stepD` with this feedback; equal to `stepD` when `cfg.nest = fun _ => []`. -/
+
+def announceN (cfg : Cfg α κ β) (s : St κ β) (g : Nat) (k : κ) : St κ β :=
+  let s := if s.outStopped then s
+           else
+             let s := emit (modGrp s g fun r => { r with announced := true }) (.outer (.next (g, k)))
+             let s := if cfg.imm g then subscribeGroup s g else s
+             -- the feedback: nested `source.on_next(y)` calls, each through the source's AutoDetachObserver
+             (cfg.nest g).foldl (fun s y => if s.srcStopped then s else srcNextD cfg s y) s
+  match cfg.dgrp g with
+  | some n =>
+    let s := emit (modGrp s g fun r => { r with dur := .live, dcnt := n }) (.subDur g)
+    if s.rcdDisposed then closeDur s g else s
+  | none =>
+    match cfg.dsync g with
+    | some n => durFireD cfg s g n
+    | none =>
+      let s := emit (modGrp s g fun r => { r with dur := .live }) (.subDur g)
+      if s.rcdDisposed then closeDur s g else s
+
+def srcNextN (cfg : Cfg α κ β) (s : St κ β) (x : α) : St κ β :=
+  match cfg.keyMapper x with
+  | .error e => errAllD cfg s e
+  | .ok k =>
+    match s.writers.find? (fun p => cfg.keyEq p.1 k) with
+    | some p => pushElemD cfg s p.2 x
+    | none =>
+      let g := s.groups.length
+      match cfg.subjMapper g with
+      | .error e => errAllD cfg s e
+      | .ok _ =>
+        let s := { s with groups := s.groups ++ [{ key := k }], writers := s.writers ++ [(k, g)] }
+        match cfg.durMapper g with
+        | .error e => errAllD cfg s e
+        | .ok _ => pushElemD cfg (announceN cfg s g k) g x
+
+def stepN (cfg : Cfg α κ β) (s : St κ β) : Ev α → St κ β
+  | .src (.next x) => if s.srcStopped then s else srcNextN cfg s x
+  | e => stepD cfg s e
+
+def runN (cfg : Cfg α κ β) (s : St κ β) : List (Ev α) → St κ β
+  | [] => s
+  | e :: es => runN cfg (stepN cfg s e) es
 
 /-! ## partition: `publish()` + `ref_count()` + two `filter`s -/
 namespace Part
